@@ -201,16 +201,17 @@ def lcaLoop (par : Nat → Nat) : Nat → Nat → Nat → List Nat → List Nat 
 
 def lca (par : Nat → Nat) (fuel a b : Nat) : Nat := lcaLoop par fuel a b [a] [b]
 
-/-- fuel for the walk: 2·(depth a + depth b) + 3 ≤ 4·#graphs + 3 -/
-def Prog.lcaFuel (p : Prog) : Nat := 4 * p.graphs.length + 4
+/-- fuel for the walk: 2·(depth a + depth b) + 3 ≤ 4·#graph_topo + 3 -/
+def lcaFuel (gt : List Nat) : Nat := 4 * gt.length + 4
 
 /-- `satisfy_constraints(node)` -/
-def relax (p : Prog) (owner : List (Nat × Nat)) (g : Nat) (s : ScopeOf) (v : V) : ScopeOf :=
-  s.set v (lca (parent owner s) p.lcaFuel g ((s.get v).getD g))
+def relax (owner : List (Nat × Nat)) (fuel : Nat) (g : Nat) (s : ScopeOf) (v : V) : ScopeOf :=
+  s.set v (lca (parent owner s) fuel g ((s.get v).getD g))
 
 /-- `update_scope_tree(graph)` -/
-def updateScopeTree (p : Prog) (owner : List (Nat × Nat)) (s : ScopeOf) (g : Nat) : ScopeOf :=
-  (p.postIn g).foldl (relax p owner g) s
+def updateScopeTree (p : Prog) (owner : List (Nat × Nat)) (fuel : Nat) (s : ScopeOf) (g : Nat) :
+    ScopeOf :=
+  (p.postIn g).foldl (relax owner fuel g) s
 
 /-! ### resolve_scopes, compile -/
 
@@ -267,7 +268,7 @@ def build (p : Prog) : Except Err (Built × List Ev) :=
   | .error e => .error e
   | .ok st =>
     let gt := st.topo.reverse
-    let so := gt.foldl (updateScopeTree p st.owner) []
+    let so := gt.foldl (updateScopeTree p st.owner (lcaFuel gt)) []
     let topo := visit p.adjFull p.fuel (.src 0) []
     if so.any (fun e => !topo.contains e.1) then .error (.build "missing-in-topo") else
     let b : Built := ⟨gt, st.owner, st.argsOf, so, topo⟩
@@ -311,7 +312,8 @@ def placed : List Ev → List Nat → List (V × Nat)
 def Prog.WFb (p : Prog) : Bool :=
   (List.range p.nodes.length).all (fun n =>
     (p.inputs n).all (fun i => decide (i < n)) &&
-    (p.subs n).all (fun g => decide (g < p.graphs.length) && (p.results g).all (fun r => decide (r < n))) &&
+    (p.subs n).all (fun g => decide (g < p.graphs.length) && decide (0 < g) &&
+      (p.results g).all (fun r => decide (r < n))) &&
     (!p.isArg n || ((p.inputs n).isEmpty && (p.subs n).isEmpty))) &&
   p.graphs.all (fun pg => pg.results.all (fun r => decide (r < p.nodes.length)) &&
     match pg.args with
